@@ -12,7 +12,8 @@ CHECKS = {
            "every fitting literal with any surrounding whitespace is accepted. Tied to the code by translated tables/constants and ~10^5 "
            "model-vs-implementation cases per run (all 8-bit, 16-bit strata, boundaries of every power of two and ten, malformed literals), "
            "plus implementation-vs-encoding/json in pointer, map-key, ,string, slice and struct positions. Partial: stream-mode scanning and "
-           "non-plain positions are compared with the oracle, not modelled."),
+           "non-plain positions are compared with the oracle, not modelled."
+           " The 30 width-specific constructors of both compilers ((u)int<N>[String]Code, compile(U)int<N>) carry the width of their name (translated fact)."),
   'note': TB,
   'technique': 'Coq proof over translated model + extracted-model correspondence + differential search',
  },
@@ -89,7 +90,8 @@ CHECKS = {
            "compiler.go are checked by the translator): for EVERY struct shape and name the selected field is the one Go's rule selects (alone at the smallest depth, "
            "or alone among the tagged there; iff), candidates are pairwise distinct, and the level-by-level resolution the code used before two repairs is refuted; "
            "generated embedding trees (value and pointer embedding, depth 3, tags, ignored fields) run through the model and encoding/json in both directions. "
-           "Partial: escape decoding inside keys and the map-based fallback are compared, not modelled."),
+           "Partial: escape decoding inside keys and the map-based fallback are compared, not modelled."
+           " The 8-bit and the 16-bit key matcher are one text up to the width of their bit sets, in buffer and in stream mode (translated twin fact), so the matcher theorems speak about both; generators after an audit: names up to 65 bytes, 8/9 and 16/17 names, exact keys judged without the finding classifier, multi-member documents with duplicates, every escape spelling of a key, the member moved byte by byte across the stream window boundary, every ASCII character in tag names, first-win."),
   'note': TB + " lower (largeToSmallTable) is written by hand in the model: the table is filled by a loop in init(), which the translator does not evaluate.",
   'technique': 'Coq proofs (bitmap matcher; field resolution = Go rule for every embedding shape) + extracted-model correspondence + differential search over name sets, keys and embedding trees',
  },
@@ -206,7 +208,8 @@ CHECKS = {
            "invalid documents x up to 11 destination types x (one piece, piece sizes 1..17, every single cut, pairs of cuts, cuts around 511..2048) for verdict, value "
            "and InputOffset; stream vs Unmarshal; concatenated documents with More/InputOffset/EOF; Token sequences vs encoding/json; reader failure injected at "
            "every byte position vs encoding/json. Partial: the in-place unescape (window shifting), readAtLeast and statForRetry arithmetic are observed, not modelled; "
-           "embedded NUL bytes are excluded from the theorems."),
+           "embedded NUL bytes are excluded from the theorems."
+           " After an audit of the generators: Token under a failing reader at every byte position (oracle: the tokens before the first error are a prefix of the document's tokens, the final error is the reader's), 30 destination families of C02 (both key matchers, the map-lookup key decoder, ,string fields, embedded structs, Unmarshaler / TextUnmarshaler values and keys behind interfaces, Number, RawMessage, []byte, arrays, every integer width, integer-keyed maps) with stream = buffer and chunking invariance across the 512/1024 refills, decoder options, the Token/More/Decode loop with InputOffset and Buffered, typed document streams around the refill boundaries, reader protocol corners (data with EOF, (0,nil) reads, data with error), documents of 8 KB .. 6 MB. Two defects found this way were repaired (8798920, 51bcef6)."),
   'note': TB,
   'technique': 'Coq parametric simulation theorem (stream scanner = buffer scanner under any chunking / failing reader) + translator pattern rules + extracted instance + exhaustive-cut differential harness',
  },
@@ -237,7 +240,8 @@ CHECKS = {
            "The colouring interpreter is modelled too (Model/EncColor.v; helper shapes of vm_color and vm_color_indent checked by the translator): for EVERY scheme, "
            "markers of any bytes, and every value the coloured output is Marshal's bytes with markers inserted (removing exactly the markers gives Marshal's bytes), and "
            "with the empty scheme it is Marshal's bytes; run byte for byte against Colorize (op c13.color, markers made of control bytes and of JSON punctuation). "
-           "Partial: UnorderedMap, DisableHTMLEscape and the entry points are compared, not modelled; the interpreter clauses are tied by the helper bodies and output correspondence."),
+           "Partial: UnorderedMap, DisableHTMLEscape and the entry points are compared, not modelled; the interpreter clauses are tied by the helper bodies and output correspondence."
+           " TWINS read from the source on every run (Gen/Twins.v): the slot readers of the four vm*/util.go (ptrToUint64 ... store) have one text in all four interpreters, the append* helpers are the ones that differ; the head / field opcode tables of opcode.go answer OpStructHead<X>[String] / OpStructField<X>[String] for every case Op<X> but six named ones."),
   'note': TB,
   'technique': 'Coq emission theorems for the compact and the indenting interpreter (same token sequence read back from both texts) over translated helper bodies + extracted-model correspondence + cross-variant differential harness over the generated type grammar',
  },
@@ -324,7 +328,11 @@ CHECKS = {
            "Ten defects found and repaired (null into a TextUnmarshaler value wrote one nil word into the value; stream integers took a prefix of 1.5 / 1e2; float32 "
            "overflow stored Inf; null into json.Number an error; null kept a []byte; integer map keys \"01\" / \"+1\" refused and \"null\" accepted; bool passed as "
            "text to TextUnmarshaler; ,string demanded on pointers to aggregates; ...); two recorded as open findings. Partial: merged maps, reused pointers and slices, "
-           "nil versus empty are observed, not modelled; letters outside ASCII in keys keep their case in generated documents (their folding is C15's open finding)."),
+           "nil versus empty are observed, not modelled; letters outside ASCII in keys keep their case in generated documents (their folding is C15's open finding)."
+           " After an audit of the generators: ,string fields with quoted values of every kind, interfaces with methods (nil and set), 23 map key types, string and number spellings at any position, "
+           "struct key matchers at 8/9 and 16/17 fields and 63/64/65-byte names, documents written along the initial value, 32 destination forms, nesting 9998..10004 through 12 routes, implementer shapes "
+           "(methods on slices, maps, byte kinds, both methods, value receivers, promotion), integer-keyed maps and []byte through the typed model. Eight divergences found this way are recorded findings "
+           "with witnesses (KNOWN_FINDINGS.txt), their inputs produced under the predicate of the finding and reported under its tag."),
   'note': TB,
   'technique': 'Coq integer-range iff theorem and translated decoder-shape facts + deterministic destination x boundary-document sweep with frozen expectations and generated (type, document-for-type, initial value) triples against encoding/json in a crash-attributing child process',
  },
